@@ -183,6 +183,17 @@ pub fn inject_port_lost(path: &str, kind: io::ErrorKind) {
     }
 }
 
+/// a write of the open port fails with `kind` once `after_bytes` more bytes have been written
+/// (cleared when the port is opened again)
+pub fn inject_write_fault(path: &str, after_bytes: u64, kind: io::ErrorKind) {
+    with(|w| {
+        w.count("fault_serial_write_error");
+        w.event("inject_serial_write_fault", after_bytes, 0);
+        let l = line(w, path);
+        l.from_port.write_fault = Some((l.from_port.total_written + after_bytes, kind));
+    });
+}
+
 // ------------------------------------------------------------ port side
 
 #[derive(Debug)]
@@ -213,6 +224,7 @@ pub fn open(path: &str, baud: u32) -> Result<PortHandle, OpenOutcome> {
         l.generation += 1;
         l.baud = baud;
         l.to_port.read_fault = None;
+        l.from_port.write_fault = None;
         l.to_port.rd_closed = false;
         l.to_port.wr_closed = false;
         l.from_port.rd_closed = false;
@@ -313,6 +325,16 @@ impl PortHandle {
                 return Poll::Pending;
             }
             let mut n = data.len().min(space);
+            {
+                let l = line(w, &path);
+                if let Some((at, kind)) = l.from_port.write_fault {
+                    if l.from_port.total_written >= at {
+                        return Poll::Ready(Err(io::Error::from(kind)));
+                    }
+                    // only the bytes before the fault leave the port
+                    n = n.min((at - l.from_port.total_written) as usize);
+                }
+            }
             if short && n > 1 {
                 match w.tape.weighted(&[4, 1, 2]) {
                     0 => {}
